@@ -7,7 +7,7 @@
 From Coq Require Import QArith Qminmax List Bool Arith.
 Import ListNotations.
 From PV Require Import Lib.WLS BSpline.Eval BSpline.Fit BSpline.Iter BSpline.KnotsProofs
-  C11.Model C11.Proofs C11.ProofsIvar C11.ProofsFlux C11.ProofsScale C11.ProofsFit.
+  Generated.Combine1fiber C11.Model C11.Proofs C11.ProofsIvar C11.ProofsFlux C11.ProofsScale C11.ProofsFit C11.ProofsGen.
 Open Scope Q_scope.
 
 (* ---- lengths: |newflux| = |newivar| = |newloglam|, for every input and every fit result *)
@@ -179,6 +179,57 @@ Theorem C11_interp_shift : forall s pts p,
   interp (map (fun q => (fst q - s, snd q)) pts) (p - s) == interp pts p.
 Proof. exact interp_shift. Qed.
 Print Assumptions C11_interp_shift.
+
+(* ---- the model's thresholds and index arithmetic are the ones translate/c11.py extracts from the source on every
+   run (Generated/Combine1fiber.v): EPS, defaults, grouping comparison, minimum group size, inside bounds, the
+   smask >= 1-EPS test, the bad-region test and the +-2 growth offsets *)
+Theorem C11_generated_EPS_and_defaults : c1f_EPS = EPS /\ c1f_nord = 3%nat /\ c1f_maxsep_factor == 2 /\
+  c1f_bkptbin_factor == 12 # 10 /\ c1f_pad_lo == 2 /\ c1f_pad_hi == 2 /\ c1f_slice_extra = 1%nat /\ c1f_smooth_width = 3%nat.
+Proof. exact (conj gen_EPS gen_defaults). Qed.
+Print Assumptions C11_generated_EPS_and_defaults.
+
+Theorem C11_generated_grouping : forall maxsep w,
+  gap_after maxsep w =
+  (fix go (w : list Q) : list bool :=
+     match w with
+     | [] => []
+     | [a] => [true]
+     | a :: ((b :: _) as r) => c1f_gap maxsep (b - a) :: go r
+     end) w.
+Proof. exact gen_gap_after. Qed.
+Print Assumptions C11_generated_grouping.
+
+Theorem C11_generated_min_group : forall ss f, (length ss <=? c1f_min_group)%nat = true -> usable ss f = None.
+Proof. exact gen_usable_size. Qed.
+Print Assumptions C11_generated_min_group.
+
+Theorem C11_generated_inside : forall lo hi p, c1f_inside lo hi p = inside_b lo hi p.
+Proof. exact gen_inside. Qed.
+Print Assumptions C11_generated_inside.
+
+Theorem C11_generated_smask : forall inloglam wts comb these newloglam newmask,
+  ivar_of_exposure inloglam wts comb these newloglam newmask =
+  let xs := map (nthQ inloglam) these in
+  let lo := lminQ xs in let hi := lmaxQ xs in
+  let pv := map (fun i => (nthQ inloglam i, nthQ wts i * b2q (nthB comb i))) these in
+  let pm := map (fun i => (nthQ inloglam i, b2q (nthB comb i))) these in
+  map (fun t => let '(p, m) := t in
+         if Qle_bool lo p && Qle_bool p hi then
+           (if c1f_smask_ok (interp pm p) then interp pv p else 0) * b2q m
+         else 0) (combine newloglam newmask).
+Proof. exact gen_smask. Qed.
+Print Assumptions C11_generated_smask.
+
+Theorem C11_generated_growth : forall v,
+  grow v =
+  let n := length v in
+  let bad := map c1f_bad (smooth3 v) in
+  let ibad := filter (fun i => nthB bad i) (seq 0 n) in
+  let lower := map c1f_grow_lo ibad in
+  let upper := map (c1f_grow_hi n) ibad in
+  set_many upper (map (fun _ => 0) upper) (set_many lower (map (fun _ => 0) lower) v).
+Proof. exact gen_grow. Qed.
+Print Assumptions C11_generated_growth.
 
 (* non-vacuity: five pixels, the middle one without weight, resampled half a pixel off: the two output pixels next
    to the bad pixel get no variance, the outer ones the interpolated one *)
